@@ -11,11 +11,14 @@ Local Open Scope Z_scope.
 Definition xNil := 0.  Definition xEOF := 1.  Definition xCancelled := 2.  Definition xWouldBlock := 3.
 Definition xEPERM := 4.  Definition xEBADF := 5.  Definition xReset := 6.  Definition xEPIPE := 7.  Definition xTimeout := 8.
 
-Inductive okind : Type := KSock | KPipeR | KPipeW | KReg | KLsn | KDead.
+Inductive okind : Type := KSock | KPipeR | KPipeW | KReg | KLsn | KDead | KPkt.
   (* KLsn: listener, e_rq counts queued connections; KDead: the descriptor was closed underneath the object and its number now
-     names something that can be neither polled nor read (a directory): every system call on it fails *)
+     names something that can be neither polled nor read (a directory): every system call on it fails;
+     KPkt: packet conn (/repo/packet.go) on a UDP socket; the scripts keep datagram size = read size, so e_rq counts bytes *)
 
-Record opst : Type := mkop { op_cb : Z; op_all : bool; op_len : Z; op_sofar : Z }.
+Record opst : Type := mkop { op_cb : Z; op_all : bool; op_len : Z; op_sofar : Z;
+  op_wrapped : bool   (* the callback stored with the deferred operation is the Dispatched-counting wrapper (packet.go keeps
+                         whatever callback it was handed; file.go's reactors always hold the user's callback) *) }.
 
 Record obj : Type := mkobj {
   o_kind : okind;
@@ -153,10 +156,13 @@ Definition with_rd (o : obj) (r : option opst) (evR reg : bool) : obj :=
   mkobj (o_kind o) (o_closed o) evR (o_evW o) r (o_wr o) reg (e_rq o) (e_reof o) (e_rst o) (e_wdead o).
 Definition with_wr (o : obj) (w : option opst) (evW reg : bool) : obj :=
   mkobj (o_kind o) (o_closed o) (o_evR o) evW (o_rd o) w reg (e_rq o) (e_reof o) (e_rst o) (e_wdead o).
-Definition set_sofar (p : opst) (n : Z) : opst := mkop (op_cb p) (op_all p) (op_len p) n.
+Definition set_sofar (p : opst) (n : Z) : opst := mkop (op_cb p) (op_all p) (op_len p) n (op_wrapped p).
+Definition set_wrapped (p : opst) (w : bool) : opst := mkop (op_cb p) (op_all p) (op_len p) (op_sofar p) w.
+Definition is_pkt (o : obj) : bool := match o_kind o with KPkt => true | _ => false end.
 
 (* scheduleRead / scheduleWrite: [wrapped] tells whether the callback handed to it is the Dispatched-counting wrapper *)
-Definition schedule (s : loop) (i : Z) (o : obj) (write : bool) (p : opst) (wrapped : bool) : loop * list item :=
+Definition schedule (s : loop) (i : Z) (o : obj) (write : bool) (p0 : opst) (wrapped : bool) : loop * list item :=
+  let p := set_wrapped p0 wrapped in
   if o_closed o then (set_obj s i o, [IInvoke (op_cb p) xEOF 0 wrapped])
   else if (if write then o_evW o else o_evR o) then
     (* interest already registered: setRW is a no-op, the reactor now holds this operation *)
@@ -180,7 +186,8 @@ Fixpoint io_now (fuel : nat) (s : loop) (i : Z) (write : bool) (p : opst) (wrapp
           match r with
           | SGot n =>
               let sofar := op_sofar p + n in
-              if op_all p && negb (sofar =? op_len p) then io_now f (set_obj s i o1) i write (set_sofar p sofar) wrapped
+              (* packet.go makes one system call per attempt, also for the *All flavour *)
+              if op_all p && negb (sofar =? op_len p) && negb (is_pkt o) then io_now f (set_obj s i o1) i write (set_sofar p sofar) wrapped
               else (set_obj s i o1, [IInvoke (op_cb p) xNil sofar wrapped])
           | SEof => (set_obj s i o1, [IInvoke (op_cb p) xEOF (op_sofar p) wrapped])
           | SWouldBlock => schedule s i o1 write p wrapped
@@ -203,7 +210,10 @@ Definition on_event (s : loop) (i : Z) (o : obj) (write : bool) (err : Z) : loop
   match (if write then o_wr o else o_rd o) with
   | None => (set_obj s i o1, [])
   | Some p =>
-      if negb (err =? xNil) then (set_obj s i o1, [IInvoke (op_cb p) err (op_sofar p) false])
+      (* the packet conn's handler completes through the callback it was scheduled with: the wrapper when the operation was
+         started below the dispatch limit and would have blocked *)
+      let wr := is_pkt o && op_wrapped p in
+      if negb (err =? xNil) then (set_obj s i o1, [IInvoke (op_cb p) err (op_sofar p) wr])
       else
         match o_kind o with
         | KLsn =>
@@ -211,7 +221,7 @@ Definition on_event (s : loop) (i : Z) (o : obj) (write : bool) (err : Z) : loop
             let '(o2, r) := sys_read o1 0 in
             (set_obj s i o2, [IInvoke (op_cb p) (match r with SGot _ => xNil | SEof => xEOF | SWouldBlock => xWouldBlock | SFail e => e end)
                                 (match r with SGot n => n | _ => 0 end) false])
-        | _ => io_now 64 (set_obj s i o1) i write p false
+        | _ => io_now 64 (set_obj s i o1) i write p wr
         end
   end.
 
@@ -235,7 +245,7 @@ Definition do_action (s : loop) (a : action) : loop * list item :=
       match lookup i (l_objs s) with
       | None => (s, [])
       | Some o =>
-          let p := mkop cb all len 0 in
+          let p := mkop cb all len 0 false in
           let o0 := if write then with_wr o (Some p) (o_evW o) (o_reg o) else with_rd o (Some p) (o_evR o) (o_reg o) in
           let s := add_log s (LStart cb i write all len) in
           if l_disp s <? sonic_MaxCallbackDispatch then io_now 64 (set_obj s i o0) i write p true
